@@ -39,7 +39,9 @@ func (c *validatorListConstructor) buildList(node schema.Node) {
 		c.appendTypeValidators(names)
 
 		if constr := node.Constraint(constraint.NullableConstraintType); constr != nil {
-			c.list = append(c.list, newLiteralValidator(node, c.parent))
+			// The listed types are joined by null only: the node's own example
+			// value stands for those types and admits nothing by itself.
+			c.list = append(c.list, newNullValidator(node, c.parent))
 		}
 	} else {
 		c.appendNodeValidators(node)
